@@ -267,6 +267,18 @@ func (g *Gen) genMisuse(t *rapid.T) *Op {
 			return op
 		}
 		present := rapid.SampledFrom(listOf(e.Mask)).Draw(t, "present")
+		if op.P == PUnsafe && len(op.Comps) > 0 && rapid.IntRange(0, 2).Draw(t, "twiceInOneCall") == 0 {
+			// "... or it was added twice": a component the entity lacks, named twice in one call
+			present = rapid.SampledFrom(op.Comps).Draw(t, "twice")
+			if rapid.IntRange(0, 3).Draw(t, "viaNewEntity") == 0 {
+				nc := append(append([]int{}, op.Comps...), present)
+				op = &Op{K: "new", P: PUnsafe, Comps: nc, Rels: op.Rels, Mode: op.Mode, Sub: "dup-add"}
+				for _, c := range nc {
+					_ = c
+				}
+				return op
+			}
+		}
 		if op.P == PUnsafe {
 			pos := rapid.IntRange(0, len(op.Comps)).Draw(t, "dupPos")
 			nc := append([]int{}, op.Comps[:pos]...)
